@@ -18,7 +18,7 @@ CONSTANT MaxFaults
 
 Pipes   == {"plain", "semgrep", "sast", "sast2"}
 Static  == {"badutf8", "nul", "syntax", "empty"}
-Dynamic == {"vanish", "raise", "raiseAtNodeEarly", "raiseAtNodeMid", "raiseAtNodeLate"}   \* the j-th visited node: 2nd, 12th, 22nd
+Dynamic == {"vanish", "raise", "raiseAtNodeEarly", "raiseAtNodeMid", "raiseAtNodeLate"}   \* the j-th visited node: 2nd, 25th, the first one after a change was recorded
 NF == 3
 NC == 2
 
